@@ -1098,7 +1098,9 @@ func (c *Conn) writeRequest(ctx *Ctx) error {
 
 	c.bwLck.Lock()
 
-	_, err := fr.WriteTo(c.bw)
+	// The header block goes out in frames no larger than the server accepts,
+	// continued in CONTINUATION frames when it has to be.
+	err := writeHeaderBlock(c.bw, fr, h, int(atomic.LoadUint32(&c.maxFrameSize)))
 	if err == nil {
 		err = c.bw.Flush()
 	}
